@@ -406,6 +406,9 @@ fn main() {
     std::panic::set_hook(Box::new(|info| {
         if std::env::var("QH_PANIC").is_ok() {
             eprintln!("PANIC {}", info);
+            if std::env::var("QH_BT").is_ok() {
+                eprintln!("{}", std::backtrace::Backtrace::force_capture());
+            }
         }
         if let Some(l) = info.location() {
             *PLOC.lock().unwrap() = format!("{}:{}", l.file().rsplit('/').next().unwrap_or(""), l.line());
